@@ -159,6 +159,7 @@ func (r *Reader) readList(n datamodel.Node, path string) (val.V, error) {
 		return val.V{}, fmt.Errorf("at %q: list has non-nil MapIterator", path)
 	}
 	out := val.V{K: val.List, Items: []val.V{}}
+	var heldVals []datamodel.Node
 	var i int64
 	for !it.Done() {
 		if i >= length {
@@ -176,6 +177,7 @@ func (r *Reader) readList(n datamodel.Node, path string) (val.V, error) {
 		if err != nil {
 			return val.V{}, err
 		}
+		heldVals = append(heldVals, cn)
 		if r.Lookups {
 			for form, get := range map[string]func() (datamodel.Node, error){
 				"LookupByIndex":        func() (datamodel.Node, error) { return n.LookupByIndex(i) },
@@ -213,6 +215,17 @@ func (r *Reader) readList(n datamodel.Node, path string) (val.V, error) {
 	}
 	if i != length {
 		return val.V{}, fmt.Errorf("at %q: list Length=%d but iterator yielded %d", path, length, i)
+	}
+	// the element nodes the iterator handed out are nodes in their own right: they read the same once the
+	// iterator has moved on (scalars and small containers only, to keep the re-read linear)
+	for j, cn := range heldVals {
+		if out.Items[j].Size() > 4 {
+			continue
+		}
+		again, err := (&Reader{Typed: r.Typed, MaxNodes: r.MaxNodes}).read(cn, path+"/"+strconv.Itoa(j))
+		if err != nil || !val.Equal(again, out.Items[j], val.Ordered) {
+			return val.V{}, fmt.Errorf("at %q: the element node the iterator yielded at step %d read %s then, and %s (err %v) once the iteration had finished", path, j, out.Items[j].Short(100), again.Short(100), err)
+		}
 	}
 	if _, _, err := it.Next(); err == nil {
 		return val.V{}, fmt.Errorf("at %q: list iterator over-read returned no error", path)
@@ -254,7 +267,7 @@ func (r *Reader) readMap(n datamodel.Node, path string) (val.V, error) {
 	}
 	out := val.V{K: val.Map, Ents: []val.Ent{}}
 	seen := map[string]bool{}
-	var heldKeys []datamodel.Node
+	var heldKeys, heldVals []datamodel.Node
 	var i int64
 	for !it.Done() {
 		if i >= length {
@@ -314,6 +327,7 @@ func (r *Reader) readMap(n datamodel.Node, path string) (val.V, error) {
 		}
 		out.Ents = append(out.Ents, val.Ent{K: ks, V: cv})
 		heldKeys = append(heldKeys, kn)
+		heldVals = append(heldVals, vn)
 		i++
 	}
 	if i != length {
@@ -321,6 +335,15 @@ func (r *Reader) readMap(n datamodel.Node, path string) (val.V, error) {
 	}
 	// key nodes handed out by the iterator are nodes in their own right: they still read the same after the
 	// iterator has moved on, and still find their entry
+	for j, vn := range heldVals {
+		if out.Ents[j].V.Size() > 4 {
+			continue
+		}
+		again, err := (&Reader{Typed: r.Typed, MaxNodes: r.MaxNodes}).read(vn, path+"/"+out.Ents[j].K)
+		if err != nil || !val.Equal(again, out.Ents[j].V, val.Ordered) {
+			return val.V{}, fmt.Errorf("at %q: the value node the iterator yielded at step %d (%q) read %s then, and %s (err %v) once the iteration had finished", path, j, out.Ents[j].K, out.Ents[j].V.Short(100), again.Short(100), err)
+		}
+	}
 	for j, kn := range heldKeys {
 		ks, err := keyString(kn)
 		if err != nil || ks != out.Ents[j].K {
